@@ -23,10 +23,12 @@ rc,out=sh('go test -count=1 -timeout 300s ./...', cwd=wt); meta['existing_tests_
 if rc!=0: meta['existing_tests_output']=out[-1500:]
 demos=glob.glob(os.path.join(seeddir,'demo*_test.go'))
 for d in demos: shutil.copy(d, os.path.join(wt,pkg,'zz_'+os.path.basename(d)))
-rc,out=sh('go test -count=1 -timeout 120s -run "Seed|seed|Demo|demo" ./'+pkg+'/', cwd=wt); meta['demo_fails_with_change']=rc!=0
+RACE='-race ' if os.environ.get('SEED_RACE') else ''
+rc,out=sh('go test '+RACE+'-count=1 -timeout 180s -run "Seed|seed|Demo|demo" ./'+pkg+'/', cwd=wt); meta['demo_fails_with_change']=rc!=0
+meta['demo_run_with_race_detector']=bool(RACE)
 meta['demo_output_with_change']=out[-1200:]
 sh('git apply -R '+patch, cwd=wt)
-rc,out=sh('go test -count=1 -timeout 120s -run "Seed|seed|Demo|demo" ./'+pkg+'/', cwd=wt); meta['demo_passes_without_change']=rc==0
+rc,out=sh('go test '+RACE+'-count=1 -timeout 180s -run "Seed|seed|Demo|demo" ./'+pkg+'/', cwd=wt); meta['demo_passes_without_change']=rc==0
 if rc!=0: meta['demo_output_without_change']=out[-1200:]
 sh('git -C /repo worktree remove --force '+wt)
 # run the checks against /repo with the change applied
